@@ -442,11 +442,11 @@ static void plan_c02(int with_rs, int with_xor, int with_isa, const char *prop)
 
 /* ------------------------------------------------------------------ plan C06: fragments_needed */
 struct nctx { struct stripe *s; int tol; };
-static int needed_check_ledger;          /* set by the C16 sweep: the query allocates scratch lists and must release them on every path */
+static int needed_check_ledger, needed_overlap;          /* set by the C16 sweep: the query allocates scratch lists and must release them on every path */
 static int lists_intact(const int *a, const int *b, int n) { return !memcmp(a, b, sizeof(int) * (size_t)n); }
 static void needed_case(struct stripe *s, uint32_t R, uint32_t X, int desc_order, int within)
 {
-    if (!vh_case_begin("R%xX%x/%s", R, X, desc_order ? "desc" : "asc")) return;
+    if (!vh_case_begin("R%xX%x/%s%s", R, X, desc_order ? "desc" : "asc", needed_overlap ? "/overlap" : "")) return;
     int n = s->n, k = s->sh.k;
     /* three guard-bounded int lists: R and X end at the guard page of gidx (read-only content verified), N in gout */
     int rl[34], xl[34], nr = 0, nx = 0;
@@ -510,6 +510,10 @@ static void on_union(uint32_t U, void *ctx)
     for (uint32_t R = U; R; R = (R - 1) & U) {
         needed_case(s, R, U & ~R, 0, within);
         if (__builtin_popcount(U) > 1) needed_case(s, R, U & ~R, 1, within);
+        /* Reed-Solomon back ends: the lists may overlap (the repository's own test asks to rebuild and to exclude the same index); what
+         * counts is the set of distinct unavailable fragments. (flat-XOR refuses some overlapping requests on the pinned tree; the
+         * statement can be read with multiplicity, so nothing is demanded there.) */
+        if (!is_xor(s->sh.be) && within) needed_overlap = 1, needed_case(s, R, (U & ~R) | (R & -R), 0, within), needed_overlap = 0;
     }
 }
 static void plan_c06_impl(int with_rs, int with_xor, int with_isa, const char *prop, int only_n)
